@@ -519,9 +519,15 @@ def run_unit(ck, unit):
                          1: str(norm_int(model.eval(num['i'], model_completion=True).as_long(), 'i64')), 2: ftxt}[kk]
                 br_ = ck.bridge()
                 for text in [first, '0', '1', '-1', '9223372036854775807', '9223372036854775808', '18446744073709551615', '-9223372036854775808', '1.5', '-0.5',
-                             '2.0', '-3.0', '0.0', '1e3', '1.0e19']:
+                             '2.0', '-3.0', '0.0', '1e3', '1.0e19'] + (['.inf', '-.inf', '.nan'] if tag == 'yaml' else []):
                     n = br_.call(cmd='scalar_value', text=text, json=(tag == 'json'))
-                    if '.' in text or 'e' in text or 'E' in text:
+                    if text in ('.inf', '-.inf', '.nan'):
+                        # YAML's non-finite floats are floats (any NaN payload is a NaN)
+                        got = (n.get('value') or {}).get('$f64') if isinstance(n.get('value'), dict) else None
+                        if text == '.nan' and isinstance(got, int) and (got >> 52) & 0x7ff == 0x7ff and got & ((1 << 52) - 1):
+                            continue
+                        exp = {'$f64': {'.inf': 0x7ff0000000000000, '-.inf': 0xfff0000000000000}.get(text, 0x7ff8000000000000)}
+                    elif '.' in text or 'e' in text or 'E' in text:
                         exp = {'$f64': struct.unpack('<Q', struct.pack('<d', float(text)))[0]}
                     elif text.startswith('-'):
                         exp = {'$i64': int(text)}
